@@ -1,7 +1,7 @@
-(* C11 proofs: the table driven by the modelled PeerManager and clock is an instance of the table histories
-   the theorems quantify over *)
+(* C11 proofs: the table driven by the modelled PeerManager, clock and protocol queue is an instance of the table
+   histories the theorems quantify over; a contact handed to the protocol is never lost *)
 From Coq Require Import NArith ZArith List Bool Lia.
-From LV Require Import Model.C11 Model.C11Spec.
+From LV Require Import Model.C11 Model.C11Spec Proofs.C11Base.
 Import ListNotations.
 Local Open Scope N_scope.
 
@@ -14,7 +14,8 @@ Lemma sys_step_tab own s o :
 Proof.
   unfold sys_step. destruct (table_op s o) as [to |] eqn:E.
   - destruct (step true own (s_tab s) to). destruct o; reflexivity.
-  - destruct o; cbn in *; try discriminate; reflexivity.
+  - destruct o; cbn in *; try discriminate; try reflexivity.
+    + destruct ((pid p =? own) || existsb (peer_eqb p) (s_pending s)); reflexivity.
 Qed.
 
 Lemma sys_run_from_compile own ops : forall s,
@@ -30,13 +31,71 @@ Lemma compile_valid own ops : forall s, Forall sop_valid ops -> Forall op_valid 
 Proof.
   induction ops as [| o r IH]; intros s V; cbn [compile]; [constructor |].
   inversion V; subst. destruct (table_op s o) as [to |] eqn:E; [| auto].
-  constructor; [| auto]. destruct o; cbn in E; inversion E; subst; cbn in *; auto.
+  constructor; [| auto]. destruct o; cbn in E; try (inversion E; subst; cbn in *; auto; fail).
+  destruct (existsb (peer_eqb p) (s_pending s)); inversion E; subst; cbn in *; auto.
+Qed.
+
+Lemma proto_probe_nofail pr q : proto_probe pr q <> PLocalFail.
+Proof. unfold proto_probe. destruct (pr q); discriminate. Qed.
+
+(* through the protocol no probe outcome reaches the table as a local failure *)
+Lemma compile_nofail own ops : forall s, Forall sop_proto ops -> Forall op_nofail (compile own s ops).
+Proof.
+  induction ops as [| o r IH]; intros s V; cbn [compile]; [constructor |].
+  inversion V; subst. destruct (table_op s o) as [to |] eqn:E; [| auto].
+  constructor; [| auto]. destruct o; cbn in E, H1; try contradiction; try (inversion E; subst; cbn; auto; fail).
+  - inversion E; subst. cbn. intros q. apply proto_probe_nofail.
+  - destruct (existsb (peer_eqb p) (s_pending s)); inversion E; subst. cbn. intros q. apply proto_probe_nofail.
 Qed.
 
 Lemma pm_refines own sops :
   Forall sop_valid sops ->
-  exists ops, Forall op_valid ops /\ s_tab (sys_run own sops) = run own ops.
+  exists ops, Forall op_valid ops /\ s_tab (sys_run own sops) = run own ops /\
+              (Forall sop_proto sops -> Forall op_nofail ops).
 Proof.
   intros V. exists (compile own sys_init sops). split; [apply compile_valid; exact V |].
-  unfold sys_run, run. apply sys_run_from_compile.
+  split; [unfold sys_run, run; apply sys_run_from_compile | apply compile_nofail].
+Qed.
+
+(* ---------- the queue of routing_table_task loses nobody ---------- *)
+Lemma in_remove_first_other (f : peer -> bool) l x : In x l -> f x = false -> In x (remove_first f l).
+Proof.
+  induction l as [| a l IH]; cbn; [tauto |]. intros [-> | H] Fx.
+  - rewrite Fx. left. reflexivity.
+  - destruct (f a); [exact H | right; auto].
+Qed.
+
+Lemma offered_or_pending own ops : forall s p,
+  pid p <> own ->
+  In p (s_pending s) \/ In (SReport p) ops ->
+  In p (s_pending (sys_run_from true own s ops)) \/ exists e, In (Add p e) (compile own s ops).
+Proof.
+  induction ops as [| o r IH]; intros s p Np H; cbn [sys_run_from compile].
+  - destruct H as [H | []]. left. exact H.
+  - assert (Step : In p (s_pending (fst (sys_step true own s o))) \/ In (SReport p) r \/
+                   exists e, table_op s o = Some (Add p e)).
+    { destruct H as [Hp | [-> | Hr]]; [| | auto].
+      - (* p is pending: it stays pending unless this step pops it *)
+        unfold sys_step. destruct (table_op s o) as [to |] eqn:E.
+        + destruct (step true own (s_tab s) to) as [t' x].
+          destruct o; cbn [fst s_pending]; auto.
+          cbn in E. destruct (existsb (peer_eqb p0) (s_pending s)); [| discriminate].
+          destruct (peer_eqb p0 p) eqn:Eq.
+          * apply peer_eqb_spec in Eq. subst p0. right. right. eauto.
+          * left. apply in_remove_first_other; assumption.
+        + destruct o; cbn [fst s_pending]; auto.
+          destruct ((pid p0 =? own) || existsb (peer_eqb p0) (s_pending s)); cbn [fst s_pending]; auto.
+          left. apply in_or_app. auto.
+      - (* p is reported now *)
+        left. unfold sys_step. cbn [table_op].
+        destruct ((pid p =? own) || existsb (peer_eqb p) (s_pending s)) eqn:E; cbn [fst s_pending].
+        + apply orb_true_iff in E. destruct E as [E | E]; [apply N.eqb_eq in E; contradiction |].
+          apply existsb_exists in E. destruct E as (x & Hx & Ex). apply peer_eqb_spec in Ex. subst x. exact Hx.
+        + apply in_or_app. right. left. reflexivity. }
+    destruct Step as [Hp | [Hr | (e & E)]].
+    + destruct (IH (fst (sys_step true own s o)) p Np (or_introl Hp)) as [H1 | (e & H1)]; [auto |].
+      right. exists e. destruct (table_op s o); [right |]; exact H1.
+    + destruct (IH (fst (sys_step true own s o)) p Np (or_intror Hr)) as [H1 | (e & H1)]; [auto |].
+      right. exists e. destruct (table_op s o); [right |]; exact H1.
+    + right. exists e. rewrite E. left. reflexivity.
 Qed.
